@@ -522,6 +522,9 @@ class Evaluator:
             return BoolVal("not " + b.desc, {"neg": b})
         if isinstance(e.op, ast.UAdd):
             return self.as_lin(v, e)
+        if isinstance(e.op, ast.Invert):
+            x = self.as_lin(v, e)
+            return Lin(-1) - x  # ~x == -x - 1 for integers
         raise Unsupported(f"{self.func.qual}:{e.lineno}: unary {unparse(e)}")
 
     def e_BinOp(self, e: ast.BinOp, st: State) -> t.Any:
@@ -585,6 +588,14 @@ class Evaluator:
                 )
             except KeyError:
                 pass
+        if name == "BitAnd":
+            # an octet read has bits 0..7 only: a negative mask (~0x80) selects the same bits as its low byte
+            for x_, m_ in ((la, lb), (lb, la)):
+                if m_.is_const() and m_.const < 0 and len(x_.terms) == 1 and x_.const == 0:
+                    (atom_, coef_), = x_.terms.items()
+                    if coef_ == 1 and atom_[0] == "read" and any(r_.rid == atom_[1] and r_.kind == "int" and (r_.hi - r_.lo) == Lin(1) and not r_.a.get("signed") for r_ in st.reads):
+                        la, lb = x_, Lin(m_.const & 0xFF)
+                        break
         if name in ("BitOr", "BitXor"):
             # commutative: canonical operand order
             x, y = sorted([la, lb], key=lambda z: repr(z.key()))
